@@ -24,6 +24,7 @@ import (
 	"github.com/cockroachdb/errors/errorspb"
 	"github.com/cockroachdb/errors/extgrpc"
 	"github.com/cockroachdb/errors/exthttp"
+	"github.com/cockroachdb/errors/join"
 	"github.com/cockroachdb/errors/oserror"
 	"github.com/cockroachdb/errors/report"
 	"github.com/cockroachdb/errors/withstack"
@@ -442,6 +443,13 @@ func hasIsMethod(e error) bool {
 
 func init() {
 	oracleTable["C02"] = func(o *octx) {
+		if strings.HasSuffix(o.c.ID, "-0") || strings.HasSuffix(o.c.ID, "-1") {
+			if why, detail := bareJoinNesting(); why != "" {
+				o.evals++
+				o.fail(why, "", detail)
+				return
+			}
+		}
 		if o.e == nil {
 			return
 		}
@@ -641,6 +649,16 @@ func init() {
 		walk(&stripped)
 		if !check("received without the typed payloads", errors.DecodeError(context.Background(), stripped)) {
 			return
+		}
+		// a peer running the previous version of the library: its barriers arrive under the old type name
+		// with a plain-text message, every byte of which is unsafe
+		if old := legacyBarriersWith(o.e, ""); old != nil {
+			if !check("received from a peer that sends barriers in the previous format", old) {
+				return
+			}
+			if !check("received from such a peer and forwarded once more", transfer(old, [][]string{{}})) {
+				return
+			}
 		}
 	}
 	oracleTable["C12"] = func(o *octx) {
@@ -1206,6 +1224,51 @@ func init() {
 			}
 		}
 		walk(o.c.R)
+		// a barrier on the direct chain: what its hidden error declares safe (one-line details) stays among
+		// the safe details of the whole error, here and after every hop -- also at a process that knows
+		// none of the types and keeps the barrier as an opaque leaf
+		cur := o.c.R
+		for cur != nil {
+			if _, isNil := specText(cur); isNil {
+				break
+			}
+			if strings.HasPrefix(cur.Op, "handle") {
+				he := cur.Kids[0].Build(&BuildCtx{})
+				var want []string
+				for he != nil {
+					for _, d := range errbase.GetSafeDetails(he).SafeDetails {
+						if len(d) > 2 && !strings.Contains(d, "\n") {
+							want = append(want, d)
+						}
+					}
+					he = errors.UnwrapOnce(he)
+				}
+				where := append([][][]string{nil}, o.c.Hops...)
+				for _, hops := range where {
+					x := o.e
+					if hops != nil {
+						x = transfer(o.e, hops)
+					}
+					var b strings.Builder
+					for _, p := range errors.GetAllSafeDetails(x) {
+						b.WriteString(strings.Join(p.SafeDetails, "\n") + "\n")
+					}
+					all := b.String()
+					for _, d := range want {
+						o.evals++
+						if !strings.Contains(all, d) {
+							o.fail("a safe detail of the error hidden behind a barrier is not among the safe details of the whole error after hops "+hopsStr(hops), "", fmt.Sprintf("%q", d))
+							return
+						}
+					}
+				}
+				break
+			}
+			if len(cur.Kids) == 0 || cur.Op == "join" || cur.Op == "stdjoin" || cur.Op == "transfer" {
+				break
+			}
+			cur = cur.Kids[0]
+		}
 		for _, h := range hidden {
 			if _, isNil := specText(h); isNil {
 				continue
@@ -1940,6 +2003,11 @@ func init() {
 				o.fail(why, "", detail)
 				return
 			}
+			if why, detail := bareJoinNesting(); why != "" {
+				o.evals++
+				o.fail(why, "", detail)
+				return
+			}
 		}
 		if o.e == nil {
 			return
@@ -2115,6 +2183,11 @@ func init() {
 				return
 			}
 			if why, detail := joinAliasing(); why != "" {
+				o.evals++
+				o.fail(why, "", detail)
+				return
+			}
+			if why, detail := typedNilChains(); why != "" {
 				o.evals++
 				o.fail(why, "", detail)
 				return
@@ -2730,7 +2803,10 @@ var dumpBudget = 150
 
 // legacyBarriers: e as received from a peer of the previous library generation: every barrier
 // travels under the previous type name, its message field holds the plain text. nil when e has no barrier.
-func legacyBarriers(e error) error {
+func legacyBarriers(e error) error { return legacyBarriersWith(e, " \u203a\u2039 raw \u2039") }
+
+// the same with a chosen suffix for the plain message the old peer sent
+func legacyBarriersWith(e error, suffix string) error {
 	enc := errors.EncodeError(context.Background(), e)
 	found := false
 	var walk func(x *errorspb.EncodedError)
@@ -2743,7 +2819,7 @@ func legacyBarriers(e error) error {
 				l.Details.ErrorTypeMark.FamilyName = strings.TrimSuffix(l.Details.ErrorTypeMark.FamilyName, "barrierErr") + "barrierError"
 				l.Details.OriginalTypeName = l.Details.ErrorTypeMark.FamilyName
 				// plain text as the old peer had it: any bytes, marker runes included
-				l.Message = stripMarkers(l.Message) + " \u203a\u2039 raw \u2039"
+				l.Message = stripMarkers(l.Message) + suffix
 			}
 			for _, c := range l.MultierrorCauses {
 				walk(c)
@@ -2796,6 +2872,72 @@ func foreignStackPaths() (string, string) {
 		lf, ll, _, _ := withstack.GetOneLineSource(e)
 		if !ok || f != lf || l != ll {
 			return "the one-line source of a stack whose file names contain " + prefix + " is wrong", fmt.Sprintf("%s:%d vs %s:%d", f, l, lf, ll)
+		}
+	}
+	return "", ""
+}
+
+// bareJoinNesting: joins made by the sub-package constructor (no stack layer around them) directly inside
+// one another: every join node is a node of the tree, before and after transfer -- Is against the inner
+// join (the same object, an equal one built separately) is kept, the shape (branch counts) is kept.
+func bareJoinNesting() (string, string) {
+	mk := func() (error, error, error) {
+		a, b, c := errors.New("a"), fmt.Errorf("b"), errors.New("c")
+		inner := join.Join(a, b)
+		return join.Join(inner, c), inner, join.Join(join.Join(c, inner), a)
+	}
+	e, inner, deep := mk()
+	_, innerEq, _ := mk()
+	ctx := context.Background()
+	for _, x := range []error{e, deep, errors.Wrap(e, "ctx")} {
+		cur := x
+		for hop := 1; hop <= 3; hop++ {
+			cur = errors.DecodeError(ctx, errors.EncodeError(ctx, cur))
+			for name, r := range map[string]error{"the inner join": inner, "an equal inner join": innerEq} {
+				if errors.Is(x, r) && !errors.Is(cur, r) {
+					return fmt.Sprintf("Is(e, %s) holds before transfer and not after hop %d (joins nested directly)", name, hop), shapeSx(cur).String()
+				}
+			}
+			if a, b := textTree(x).String(), textTree(cur).String(); a != b {
+				return fmt.Sprintf("joins nested directly change shape at hop %d", hop), firstDiff(a, b)
+			}
+		}
+	}
+	return "", ""
+}
+
+// typedNilChains: a nil pointer of an error type stored in an error value is an error like any other for the
+// standard library (its Unwrap / Is / As keep it); the library agrees on every chain around such a value.
+func typedNilChains() (string, string) {
+	var sentinel error = (*ut.NilOK)(nil)
+	chains := map[string]error{
+		"fmt.Errorf(%w)":       fmt.Errorf("ctx: %w", sentinel),
+		"pkg WithMessage":      pkgerr.WithMessage(sentinel, "ctx"),
+		"errors.Wrap":          errors.Wrap(sentinel, "ctx"),
+		"errors.WithStack":     errors.WithStack(sentinel),
+		"hint over fmt.Errorf": errors.WithHint(fmt.Errorf("ctx: %w", sentinel), "h"),
+		"join branch":          errors.Join(errors.New("other"), fmt.Errorf("ctx: %w", sentinel)),
+	}
+	for name, e := range chains {
+		if goerr.Is(e, sentinel) && !errors.Is(e, sentinel) {
+			return "the standard errors.Is finds a typed-nil sentinel that the library's Is does not (" + name + ")", fmt.Sprintf("%T", e)
+		}
+		var t1, t2 *ut.NilOK
+		t1, t2 = &ut.NilOK{Msg: "unset"}, &ut.NilOK{Msg: "unset"}
+		s, l := goerr.As(e, &t1), errors.As(e, &t2)
+		if s != l || (s && t1 != t2) {
+			return "As disagrees with the standard errors.As on a chain that ends in a typed-nil value (" + name + ")", fmt.Sprintf("std %v %v, lib %v %v", s, t1, l, t2)
+		}
+		if name == "join branch" {
+			continue
+		}
+		if a, b := goerr.Unwrap(e), errors.Unwrap(e); a != b {
+			return "Unwrap disagrees with the standard errors.Unwrap above a typed-nil value (" + name + ")", fmt.Sprintf("std %T(%v) lib %T(%v)", a, a, b, b)
+		}
+		if name != "fmt.Errorf(%w)" && name != "hint over fmt.Errorf" {
+			if a, b := pkgerr.Cause(e), errors.Cause(e); a != b {
+				return "Cause disagrees with pkg/errors.Cause on a chain that ends in a typed-nil value (" + name + ")", fmt.Sprintf("pkg %T lib %T", a, b)
+			}
 		}
 	}
 	return "", ""
